@@ -725,7 +725,7 @@ def _availability_polarity(f, root, _seen=None) -> list[tuple[ast.AST, bool | No
     for n in [root, *ast.walk(root)]:
         if isinstance(n, ast.comprehension):
             for cond in n.ifs:
-                subs = [x for x in [cond, *ast.walk(cond)] if _is_avail(x)]
+                subs = [x for x in [cond, *ast.walk(cond)] if _is_avail(x, f)]
                 for s in subs:
                     forced = [v for e, v in implied(cond, True) if e is s]
                     out.append((cond, forced[0] if forced else None))
@@ -738,7 +738,7 @@ def _availability_polarity(f, root, _seen=None) -> list[tuple[ast.AST, bool | No
             continue
         seen.add(n.id)
         for c, facts in _feeds(f, n.id):
-            forced = [v for e, v in facts if _is_avail(e)]
+            forced = [v for e, v in facts if _is_avail(e, f)]
             out.append((c, forced[0] if forced else None))
         for d in defs_of(f, n.id):
             if d.kind == "assign" and d.index is None and d.value is not None and seen is not None and len(seen) < 12:
@@ -746,8 +746,23 @@ def _availability_polarity(f, root, _seen=None) -> list[tuple[ast.AST, bool | No
     return out
 
 
-def _is_avail(x) -> bool:
-    return isinstance(x, ast.Subscript) and isinstance(x.value, ast.Attribute) and x.value.attr == "token_availability"
+def _denotes_attr(f, x, attr: str) -> bool:
+    """`x` reads attribute `attr` of some object: `<obj>.<attr>` itself, or a local of `f` whose every definition is a
+    plain whole assignment of such an attribute read (`port_tokens = mapper.port_tokens`: the attribute chain bound
+    to a local - the same mapping object as long as the attribute is not rebound in between)."""
+    x = strip(x)
+    if isinstance(x, ast.Attribute):
+        return x.attr == attr
+    if f is not None and isinstance(x, ast.Name) and isinstance(x.ctx, ast.Load):
+        ds = defs_of(f, x.id)
+        return bool(ds) and all(
+            d.kind in ("assign", "walrus") and d.index is None and d.value is not None
+            and isinstance(strip(d.value), ast.Attribute) and strip(d.value).attr == attr for d in ds)
+    return False
+
+
+def _is_avail(x, f=None) -> bool:
+    return isinstance(x, ast.Subscript) and _denotes_attr(f, x.value, "token_availability")
 
 
 def _feeds(f, name):
@@ -967,9 +982,9 @@ def r4(ctx):
             found = True
             ok = bool(pol) and all(v is False for _, v in pol)
             for o in origins(f, arg) if arg is not None else []:
-                for sub in [x for x in ast.walk(o) if isinstance(x, ast.Subscript) and isinstance(x.value, ast.Attribute) and x.value.attr == "port_tokens"]:
+                for sub in [x for x in ast.walk(o) if isinstance(x, ast.Subscript) and _denotes_attr(f, x.value, "port_tokens")]:
                     known = membership_fact(expr_facts(sub), lambda e: unparse(e) == unparse(sub.slice),
-                                            lambda e: mentions(f, e, lambda k: isinstance(k, ast.Attribute) and k.attr == "port_tokens", depth=0))
+                                            lambda e: mentions(f, e, lambda k: _denotes_attr(f, k, "port_tokens"), depth=0))
                     ok = ok and known is True  # an unmapped port has no entry: `port_tokens[name]` would raise KeyError
             ctx.ob("R4", "restore receives exactly the unavailable output tokens", ok, func=f, node=c, instance="restore:unavailable",
                    message="the on_tokens argument of restore is not filtered by `not token_availability[...]`: "
@@ -1087,7 +1102,7 @@ def r4(ctx):
         facts = [x for i in g.node_containing(c) for x in path_facts(g, i)]
         self_port = b.get("port") is not None and unparse(strip(b["port"])) == unparse(strip(c.func.value))
         tags = b.get("boundary_tags")
-        all_tags = tags is not None and mentions(f, tags, lambda n: isinstance(n, ast.Attribute) and n.attr == "port_tokens", depth=1) and mentions(
+        all_tags = tags is not None and mentions(f, tags, lambda n: _denotes_attr(f, n, "port_tokens"), depth=1) and mentions(
             f, tags, lambda n: isinstance(n, ast.Attribute) and n.attr == "tag", depth=1) and not any(
             isinstance(x, ast.comprehension) and x.ifs for o in origins(f, tags) for x in ast.walk(o))
         where = has_fact(facts, is_iw_test, True) and membership_fact(facts, port_name, out_ports) is False
@@ -1100,13 +1115,13 @@ def r4(ctx):
     # sites where the available tokens of a port are selected: a comprehension filtered by token_availability, or the
     # feeding call of the equivalent loop (`<list>.append(..)` under a token_availability test); what is known there
     # comes from the enclosing conditional expressions *and* from the dominating if statements (CFG)
-    sel_sites = [parent(n) for n in f.body_nodes() if isinstance(n, ast.comprehension) and any(_is_avail(x) for cond in n.ifs for x in ast.walk(cond))]
+    sel_sites = [parent(n) for n in f.body_nodes() if isinstance(n, ast.comprehension) and any(_is_avail(x, f) for cond in n.ifs for x in ast.walk(cond))]
     sel_sites += [c for c in f.calls() if isinstance(c.func, ast.Attribute) and c.func.attr in ("append", "add", "insert", "appendleft") and c.args
-                  and any(_is_avail(e) for i in g.node_containing(c) for e, _v in path_facts(g, i))]
+                  and any(_is_avail(e, f) for i in g.node_containing(c) for e, _v in path_facts(g, i))]
     for comp in sel_sites:
         facts = expr_facts(comp) + [x for a in ancestors(comp) if isinstance(a, ast.Call) for x in expr_facts(a)]
         facts += [x for i in g.node_containing(comp) for x in path_facts(g, i)]
-        m_ = membership_fact(facts, lambda e: isinstance(e, ast.Name), lambda e: mentions(f, e, lambda k: isinstance(k, ast.Attribute) and k.attr == "port_tokens", depth=0))
+        m_ = membership_fact(facts, lambda e: isinstance(e, ast.Name), lambda e: mentions(f, e, lambda k: _denotes_attr(f, k, "port_tokens"), depth=0))
         comp_ok = m_ is not False if comp_ok is None else (comp_ok and m_ is not False)
     ctx.ob("R4", "mapped ports inject their available tokens (the conditional around the token list is not inverted)", bool(comp_ok), func=f, node=f.node,
            instance="inject:mapped", message="the token list is built only for ports that are NOT in mapper.port_tokens: nothing is injected")
@@ -1422,6 +1437,11 @@ _LCR = "streamflow.workflow.combinator.LoopCombinator.restore"
 _ON_TOKENS = ("{port.name: [mapper.token_instances[token_id] for token_id in mapper.port_tokens[port.name] if not mapper.token_availability[token_id]] "
               "for port in step.get_output_ports().values() if port.name in mapper.port_tokens.keys()}")
 
+_RESTORE_LOOP = "    for step in new_workflow.steps.values():\n        await step.restore(on_tokens=" + _ON_TOKENS + ")"
+_ALIASES = "    port_tokens = mapper.port_tokens\n    token_availability = mapper.token_availability\n    token_instances = mapper.token_instances\n"
+_RESTORE_LOOP_ALIASED = _RESTORE_LOOP.replace("mapper.token_instances[", "token_instances[").replace("mapper.port_tokens", "port_tokens").replace(
+    "mapper.token_availability[", "token_availability[")
+
 _STEP_LOOKUP = ("        if (step := next((arg for arg in args if isinstance(arg, Step)), None)) is None:\n"
                 "            if (step := next((arg for arg in kwargs.values() if isinstance(arg, Step)), None)) is None:\n"
                 "                raise ValueError('The wrapped function must take a `Step` object as argument')\n")
@@ -1611,6 +1631,17 @@ VARIANTS = [
       _TOKEN_LIST_LOOP % ("port_name in mapper.port_tokens.keys()", "token_id in mapper.token_instances"), "R4"),
     V("loop form selects tokens only for unmapped ports", FM_FILE, f"{FM}._inject_tokens", _TOKEN_LIST,
       _TOKEN_LIST_LOOP % ("port_name not in mapper.port_tokens.keys()", "mapper.token_availability[token_id]"), "R4"),
+    # ---- refactoring B14-2: the mapper's attribute chains bound to locals, filter(lambda) as a comprehension
+    V("mapper attributes bound to locals before the restore loop", FM_FILE, _REC, _RESTORE_LOOP, _ALIASES + _RESTORE_LOOP_ALIASED, None),
+    V("job tokens selected by a comprehension instead of filter(lambda)", FM_FILE, _REC,
+      "job_tokens = list(filter(lambda t: isinstance(t, JobToken), mapper.token_instances.values()))",
+      "job_tokens = [t for t in mapper.token_instances.values() if isinstance(t, JobToken)]", None),
+    V("aliased availability map: restore receives the available tokens", FM_FILE, _REC, _RESTORE_LOOP,
+      _ALIASES + _RESTORE_LOOP_ALIASED.replace("if not token_availability[token_id]", "if token_availability[token_id]"), "R4"),
+    V("aliased maps: the local named token_availability is another mapping", FM_FILE, _REC, _RESTORE_LOOP,
+      _ALIASES.replace("token_availability = mapper.token_availability", "token_availability = mapper.token_instances") + _RESTORE_LOOP_ALIASED, "R4"),
+    V("aliased port_tokens: unmapped ports are no longer skipped", FM_FILE, _REC, _RESTORE_LOOP,
+      _ALIASES + _RESTORE_LOOP_ALIASED.replace(" if port.name in port_tokens.keys()}", "}"), "R4"),
     V("recover called through a local alias of the manager", REC_FILE, DECORATOR, "await step.workflow.context.failure_manager.recover(job, step, e)",
       "fm = step.workflow.context.failure_manager\n                await fm.recover(job=job, step=step, exception=e)", None),
 ]
